@@ -5,7 +5,7 @@
 // can be replayed by hand, the defect understood, repaired, and a STATIC rule written that reports it on the
 // unrepaired tree (see DESIGN.md, "Discovery aids are not checks").
 //
-// build: g++ -w -std=c++11 -O1 -I/repo/include -I/repo/_build/include -I/repo/tests domfuzz.cpp /repo/_build/lib/libCrab.a -lgmp -o domfuzz
+// build: g++ -w -std=c++11 -O1 -DNDEBUG -I/repo/include -I/repo/_build/include -I/repo/tests domfuzz.cpp /repo/_build/lib/libCrab.a -lgmp -o domfuzz
 // run:   ./domfuzz <domain> <first seed> <number of seeds> [steps]
 #include "crab_lang.hpp"
 #include "crab_dom.hpp"
@@ -129,7 +129,8 @@ template <class Dom> struct fuzz {
       return check(d, cs, hn);
     } else if (k < 96) { // inclusion sanity: d <= d | x and bottom cases
       Dom top; Dom j = d | d;
-      if (!(d <= j)) { failed = true; crab::outs() << "d <= d|d fails for " << d << "\n"; for (auto &t : trace) crab::outs() << "    " << t << "\n"; return false; }
+      if (!(d <= j)) { failed = true; Dom dc(d); crab::outs() << "d <= d|d fails for " << d << "\n   d|d = " << j << "\n   d<=d: " << (dc <= d) << "  d|d <= d: " << (j <= d) << "\n";
+        for (auto &t : trace) crab::outs() << "    " << t << "\n"; return false; }
       return true;
     } else { // select
       int x = r.in(0, NV - 1), y = r.in(0, NV - 1), z = r.in(0, NV - 1), w = r.in(0, NV - 1);
